@@ -523,3 +523,37 @@ func HarnessC09Skeleton() {
 	verifC09Check(skRender(toks, maxVal, maxDigits))
 	verifReach("end")
 }
+
+// HarnessC09Unicode: arbitrary bytes (in particular valid multi-byte UTF-8 sequences) in the
+// places where the lexer scans runs of characters: inside a field name after its first
+// letter, after a white-space run, inside a placeholder's digits, inside a group-by field.
+func init() {
+	verifHarnesses["HarnessC09Unicode"] = HarnessC09Unicode
+}
+
+func HarnessC09Unicode() {
+	// two arbitrary bytes, or three bytes the first of which is the lead byte of a three-byte
+	// UTF-8 sequence (the other two arbitrary: valid, overlong, surrogate and broken sequences)
+	var x string
+	if verifBool("three-bytes") {
+		x = verifString("x", 3)
+		verifAssume(x[0] >= 0xe0 && x[0] <= 0xef)
+	} else {
+		x = verifString("x", 2)
+	}
+	var s string
+	switch verifChoice("place", 5) {
+	case 0:
+		s = "n" + x + `me = "v"`
+	case 1:
+		s = `a = "v" ` + x + `& b = "w"`
+	case 2:
+		s = `a = $1` + x
+	case 3:
+		s = `a = "v" ; g` + x + `, h`
+	default:
+		s = `a = "v"` + " \t" + x
+	}
+	verifC09Check(s)
+	verifReach("end")
+}
